@@ -1,6 +1,7 @@
 package main
 
 import (
+	"bytes"
 	"encoding/hex"
 	"encoding/json"
 
@@ -220,4 +221,26 @@ func jsonStr(v interface{}) string {
 		panic(err)
 	}
 	return string(b)
+}
+
+// canon re-encodes any JSON-able value with sorted keys and exact numbers, so
+// that values built from structs and values decoded from the model compare
+// textually.
+func canon(v interface{}) string {
+	b, err := json.Marshal(v)
+	if err != nil {
+		panic(err)
+	}
+	return canonRaw(b)
+}
+
+func canonRaw(b []byte) string {
+	d := json.NewDecoder(bytes.NewReader(b))
+	d.UseNumber()
+	var g interface{}
+	if err := d.Decode(&g); err != nil {
+		return "undecodable:" + string(b)
+	}
+	o, _ := json.Marshal(g)
+	return string(o)
 }
